@@ -26,13 +26,14 @@ class Ctx:
     def prog(self, oc=True, features=None):
         return self.build.program(oc, features)
 
-    def runner_path(self, profile):
-        return native.build_runner(self.build, profile)
+    def runner_path(self, profile, features=None):
+        return native.build_runner(self.build, profile, features)
 
-    def runner(self, profile='dev'):
-        if profile not in self._runners:
-            self._runners[profile] = native.Runner(self.runner_path(profile))
-        return self._runners[profile]
+    def runner(self, profile='dev', features=None):
+        key = (profile, tuple(sorted(features)) if features else None)
+        if key not in self._runners:
+            self._runners[key] = native.Runner(self.runner_path(profile, features))
+        return self._runners[key]
 
     def close(self):
         for r in self._runners.values(): r.close()
@@ -185,7 +186,7 @@ class EvalArm(Obligation):
         """returns (entry fn name, args, leaves, native_of(cz) -> (description, status, payload, micros))"""
         tree, sexpr = build_tree(st, self.ev, self.shape)
         leaves = leaves_of(self.shape)
-        entry = prog.find_fn(r'(^|::)eval_%s::ast::eval$' % self.ev)
+        entry = prog.entry(self.ev, 'eval')
 
         def native_of(cz):
             sx = sexpr(cz)
@@ -545,6 +546,8 @@ def run_obligations(ctx, obs):
     need_oc = sorted(set(getattr(o, 'oc', True) for o in obs))
     for oc in need_oc:
         ctx.prog(oc); ctx.runner_path('dev' if oc else 'release')
+    for o in obs:
+        if getattr(o, 'features', None): ctx.prog(getattr(o, 'oc', True), o.features); ctx.runner_path('dev' if getattr(o, 'oc', True) else 'release', o.features)
     jobs = min(ctx.jobs, len(obs))
     if jobs <= 1 or os.environ.get('VERIF_SERIAL'):
         return [_worker(i) for i in range(len(obs))]
